@@ -159,11 +159,17 @@ func ExploreScenario(t *testing.T, s *Scenario, o HOpts, c *Collector) {
 			}
 		}
 	}
+	if s.Prepare != nil {
+		s.Prepare(t, s)
+	}
 	ex.Exec = func(ch *explore.Chooser) {
 		Run(t, &s2, ch, func(h *Hist) { cur = h })
 		h := cur
 		if !ch.Owned() {
 			return
+		}
+		if s.Twin != nil {
+			s.Twin(t, s, h, explore.Choices(runOf(ch)))
 		}
 		c.R.Scans += h.Scans
 		for k, v := range h.Cov {
@@ -211,6 +217,14 @@ func outcomeKey(h *Hist) string {
 // ReplayScenario re-executes one choice sequence and returns the finished history.
 func ReplayScenario(t *testing.T, s *Scenario, choices []int, bound int) *Hist {
 	var cur *Hist
+	if s.Prepare != nil {
+		s.Prepare(t, s)
+	}
+	defer func() {
+		if cur != nil && s.Twin != nil {
+			s.Twin(t, s, cur, choices)
+		}
+	}()
 	ex := &explore.Explorer{Bound: bound}
 	ex.Exec = func(ch *explore.Chooser) { Run(t, s, ch, func(h *Hist) { cur = h }) }
 	ex.RunPrefix(choices)
@@ -229,4 +243,13 @@ func SortedCov(m map[string]int64) []string {
 		out = append(out, fmt.Sprintf("%s=%d", k, m[k]))
 	}
 	return out
+}
+
+// RunTwin executes the given choices on a variant scenario, leniently (the twin may stop early).
+func RunTwin(t *testing.T, s *Scenario, choices []int) *Hist {
+	var cur *Hist
+	ex := &explore.Explorer{Bound: 1 << 30}
+	ex.Exec = func(ch *explore.Chooser) { Run(t, s, ch, func(h *Hist) { cur = h }) }
+	ex.RunLenient(choices)
+	return cur
 }
